@@ -313,8 +313,45 @@ mod x509gen {
         PKey::from_ec_key(EcKey::generate(&g).unwrap()).unwrap()
     }
 
+    /// A leaf key of the given kind (0: P-256, 1: Ed25519, 2: P-384) and its MLS encoding.
+    pub fn leaf_key(kind: u8) -> (PKey<Private>, Vec<u8>) {
+        match kind {
+            1 => {
+                let k = PKey::generate_ed25519().unwrap();
+                let raw = k.raw_public_key().unwrap();
+                (k, raw)
+            }
+            _ => {
+                let g = EcGroup::from_curve_name(if kind == 2 { Nid::SECP384R1 } else { Nid::X9_62_PRIME256V1 }).unwrap();
+                let ec = EcKey::generate(&g).unwrap();
+                let mut ctx = openssl::bn::BigNumContext::new().unwrap();
+                let raw = ec.public_key().to_bytes(&g, openssl::ec::PointConversionForm::UNCOMPRESSED, &mut ctx).unwrap();
+                (PKey::from_ec_key(ec).unwrap(), raw)
+            }
+        }
+    }
+
+    /// The MLS encoding of the public key of the first certificate of a chain (what a validator
+    /// must return for it).
+    pub fn first_cert_key(der: &[u8]) -> Vec<u8> {
+        let pk = X509::from_der(der).unwrap().public_key().unwrap();
+        match pk.ec_key() {
+            Ok(ec) => {
+                let mut ctx = openssl::bn::BigNumContext::new().unwrap();
+                ec.public_key().to_bytes(ec.group(), openssl::ec::PointConversionForm::UNCOMPRESSED, &mut ctx).unwrap()
+            }
+            Err(_) => pk.raw_public_key().unwrap(),
+        }
+    }
+
     /// Issue a certificate for `subject_key` signed by `issuer` (None: self-signed).
     pub fn issue(cn: &str, subject_key: &PKey<Private>, issuer: Option<&Node>, ca: bool, not_before: i64, not_after: i64, sign_with: Option<&PKey<Private>>, serial: u32) -> X509 {
+        issue_ext(cn, subject_key, issuer, ca, not_before, not_after, sign_with, serial, None, true)
+    }
+
+    /// As `issue`, with a path length constraint and with or without keyCertSign for a CA.
+    #[allow(clippy::too_many_arguments)]
+    pub fn issue_ext(cn: &str, subject_key: &PKey<Private>, issuer: Option<&Node>, ca: bool, not_before: i64, not_after: i64, sign_with: Option<&PKey<Private>>, serial: u32, pathlen: Option<u32>, cert_sign: bool) -> X509 {
         let mut name = X509NameBuilder::new().unwrap();
         name.append_entry_by_text("CN", cn).unwrap();
         let name = name.build();
@@ -330,14 +367,26 @@ mod x509gen {
         b.set_not_before(&Asn1Time::from_unix(not_before).unwrap()).unwrap();
         b.set_not_after(&Asn1Time::from_unix(not_after).unwrap()).unwrap();
         if ca {
-            b.append_extension(BasicConstraints::new().critical().ca().build().unwrap()).unwrap();
-            b.append_extension(KeyUsage::new().critical().key_cert_sign().crl_sign().build().unwrap()).unwrap();
+            let mut bc = BasicConstraints::new();
+            bc.critical().ca();
+            if let Some(p) = pathlen {
+                bc.pathlen(p);
+            }
+            b.append_extension(bc.build().unwrap()).unwrap();
+            let mut ku = KeyUsage::new();
+            ku.critical().crl_sign();
+            if cert_sign {
+                ku.key_cert_sign();
+            }
+            b.append_extension(ku.build().unwrap()).unwrap();
         } else {
             b.append_extension(BasicConstraints::new().critical().build().unwrap()).unwrap();
             b.append_extension(KeyUsage::new().critical().digital_signature().build().unwrap()).unwrap();
         }
         let signer = sign_with.unwrap_or_else(|| issuer.map(|i| &i.key).unwrap_or(subject_key));
-        b.sign(signer, MessageDigest::sha256()).unwrap();
+        // Ed25519 signs without a separate digest
+        let md = if signer.id() == openssl::pkey::Id::ED25519 { MessageDigest::null() } else { MessageDigest::sha256() };
+        b.sign(signer, md).unwrap();
         b.build()
     }
 }
@@ -354,9 +403,37 @@ enum Defect {
     Reordered,
     NonCaIssuer,
     UnknownRoot,
+    /// not a defect: the trust anchor itself is appended to the chain
+    RootInChain,
+    /// not a defect: Ed25519 / P-384 leaf key
+    LeafEd25519,
+    LeafP384,
+    /// the first intermediate has pathLenConstraint 0 but issues another CA (depth 3)
+    PathLenExceeded,
+    /// the leaf's issuer is a CA whose key usage lacks keyCertSign (depth >= 2)
+    IssuerWithoutCertSign,
+    /// the chain is one self-signed certificate that is not a trust anchor (depth 1)
+    SelfSignedLeafUntrusted,
 }
 
-const DEFECTS: [Defect; 10] = [Defect::None, Defect::ExpiredLeaf, Defect::ExpiredIntermediate, Defect::ExpiredRoot, Defect::NotYetValidLeaf, Defect::WrongIssuerSignature, Defect::MissingIntermediate, Defect::Reordered, Defect::NonCaIssuer, Defect::UnknownRoot];
+const DEFECTS: [Defect; 16] = [
+    Defect::None,
+    Defect::ExpiredLeaf,
+    Defect::ExpiredIntermediate,
+    Defect::ExpiredRoot,
+    Defect::NotYetValidLeaf,
+    Defect::WrongIssuerSignature,
+    Defect::MissingIntermediate,
+    Defect::Reordered,
+    Defect::NonCaIssuer,
+    Defect::UnknownRoot,
+    Defect::RootInChain,
+    Defect::LeafEd25519,
+    Defect::LeafP384,
+    Defect::PathLenExceeded,
+    Defect::IssuerWithoutCertSign,
+    Defect::SelfSignedLeafUntrusted,
+];
 
 fn x509_cases(ctx: &mut Ctx) {
     use x509gen::*;
@@ -367,7 +444,9 @@ fn x509_cases(ctx: &mut Ctx) {
         for defect in DEFECTS {
             // depth 1: root -> leaf; depth 2: root -> int -> leaf; depth 3: root -> int -> int2 -> leaf
             let applies = match defect {
-                Defect::ExpiredIntermediate | Defect::MissingIntermediate | Defect::Reordered => depth >= 2,
+                Defect::ExpiredIntermediate | Defect::MissingIntermediate | Defect::Reordered | Defect::IssuerWithoutCertSign => depth >= 2,
+                Defect::PathLenExceeded => depth == 3,
+                Defect::SelfSignedLeafUntrusted => depth == 1,
                 _ => true,
             };
             if !applies {
@@ -385,11 +464,17 @@ fn x509_cases(ctx: &mut Ctx) {
                 let (nb, na) = if defect == Defect::ExpiredIntermediate && i == 0 { far_past } else { (t0 - 5, t1 + 5) };
                 let parent = if parent_is_root { &root } else { issuers.last().unwrap() };
                 let ca_flag = !(defect == Defect::NonCaIssuer && i == depth - 2);
-                let cert = issue(&format!("verif intermediate {i}"), &k, Some(parent), ca_flag, nb, na, None, 10 + i as u32);
+                let pathlen = (defect == Defect::PathLenExceeded && i == 0).then_some(0u32);
+                let cert_sign = !(defect == Defect::IssuerWithoutCertSign && i == depth - 2);
+                let cert = issue_ext(&format!("verif intermediate {i}"), &k, Some(parent), ca_flag, nb, na, None, 10 + i as u32, pathlen, cert_sign);
                 issuers.push(Node { cert, key: k });
                 parent_is_root = false;
             }
-            let leaf_key = key();
+            let (leaf_key, leaf_key_bytes) = leaf_key(match defect {
+                Defect::LeafEd25519 => 1,
+                Defect::LeafP384 => 2,
+                _ => 0,
+            });
             let (lb, la) = match defect {
                 Defect::ExpiredLeaf => far_past,
                 Defect::NotYetValidLeaf => (t1 + 100 * 86400, t1 + 200 * 86400),
@@ -408,7 +493,7 @@ fn x509_cases(ctx: &mut Ctx) {
             } else {
                 leaf_issuer
             };
-            let leaf = issue("verif member", &leaf_key, Some(leaf_issuer), false, lb, la, sign_with, 99);
+            let leaf = if defect == Defect::SelfSignedLeafUntrusted { issue("verif member", &leaf_key, None, false, lb, la, None, 99) } else { issue("verif member", &leaf_key, Some(leaf_issuer), false, lb, la, sign_with, 99) };
             let mut chain: Vec<Vec<u8>> = vec![leaf.to_der().unwrap()];
             if defect == Defect::NonCaIssuer && depth == 1 {
                 chain.push(leaf_issuer.cert.to_der().unwrap());
@@ -429,9 +514,12 @@ fn x509_cases(ctx: &mut Ctx) {
                         chain.swap(0, 1);
                     }
                 }
+                Defect::RootInChain => chain.push(root.cert.to_der().unwrap()),
                 _ => {}
             }
             let trust: Vec<Vec<u8>> = vec![if defect == Defect::UnknownRoot { other_root.cert.to_der().unwrap() } else { root.cert.to_der().unwrap() }];
+            // a reordered chain presents another certificate as the credential's leaf
+            let leaf_key_bytes = if defect == Defect::Reordered { first_cert_key(&chain[0]) } else { leaf_key_bytes };
             let chain_obj = CertificateChain::from(chain.clone());
             let ders: Vec<mls_rs_core::identity::DerCertificate> = trust.iter().map(|d| d.clone().into()).collect();
             const TIMES: [&str; 5] = ["notBefore-1s", "notBefore", "middle", "notAfter", "notAfter+1s"];
@@ -455,13 +543,15 @@ fn x509_cases(ctx: &mut Ctx) {
                 // what the injected defect and the time imply
                 let in_window = t >= t0 && t <= t1;
                 let expect_ok = match defect {
-                    Defect::None => in_window,
+                    Defect::None | Defect::RootInChain | Defect::LeafEd25519 | Defect::LeafP384 => in_window,
                     _ => false,
                 };
                 // a reordered chain of depth >= 2 still contains every certificate: validators that
                 // build the path from a set accept it; RFC 9420 requires order, so either verdict is
                 // recorded but agreement is demanded
                 let strict = defect != Defect::Reordered;
+                // signature label: the variants of a valid chain share the label of the plain valid chain
+                let dl = if matches!(defect, Defect::RootInChain | Defect::LeafEd25519 | Defect::LeafP384) { "None".to_string() } else { format!("{defect:?}") };
                 ctx.eval();
                 for (name, v) in [("openssl", &vo), ("awslc", &va), ("rustcrypto", &vr)] {
                     if let Err(m) = v {
@@ -471,19 +561,26 @@ fn x509_cases(ctx: &mut Ctx) {
                     }
                     if strict && v.is_ok() != expect_ok {
                         ctx.violation(
-                            format!("x509-wrong-verdict|{name}|{defect:?}|{}|t={tl}", if v.is_ok() { "accepts" } else { "rejects" }),
+                            format!("x509-wrong-verdict|{name}|{dl}|{}|t={tl}", if v.is_ok() { "accepts" } else { "rejects" }),
                             format!("{name} validator {} a chain with defect {defect:?} at depth {depth}, validation time {tl}: {:?}", if v.is_ok() { "accepts" } else { "rejects" }, v.as_ref().err()),
                         );
                     }
                 }
                 if !(vo.is_ok() == va.is_ok() && va.is_ok() == vr.is_ok()) {
-                    ctx.violation(format!("x509-verdicts-differ|{defect:?}|t={tl}|openssl={} awslc={} rustcrypto={}", vo.is_ok(), va.is_ok(), vr.is_ok()), format!("{case}: openssl ok={} awslc ok={} rustcrypto ok={}", vo.is_ok(), va.is_ok(), vr.is_ok()));
+                    ctx.violation(format!("x509-verdicts-differ|{dl}|t={tl}|openssl={} awslc={} rustcrypto={}", vo.is_ok(), va.is_ok(), vr.is_ok()), format!("{case}: openssl ok={} awslc ok={} rustcrypto ok={}", vo.is_ok(), va.is_ok(), vr.is_ok()));
                 } else {
                     ctx.outcome(format!("x509:{}:{}", if vo.is_ok() { "all-accept" } else { "all-reject" }, if expect_ok { "valid" } else { "defective" }));
                 }
                 if let (Ok(a), Ok(b), Ok(c)) = (&vo, &va, &vr) {
                     if a != b || b != c {
                         ctx.violation("x509-leaf-key-differs", format!("{case}: validators return different leaf public keys"));
+                    }
+                }
+                for (name, v) in [("openssl", &vo), ("awslc", &va), ("rustcrypto", &vr)] {
+                    if let Ok(k) = v {
+                        if *k != leaf_key_bytes {
+                            ctx.violation(format!("x509-leaf-key-wrong|{name}|{defect:?}"), format!("{case}: the {name} validator returns a signature key that is not the leaf certificate's public key"));
+                        }
                     }
                 }
                 ctx.extra("states", 1);
@@ -523,7 +620,7 @@ fn mixed_models(quick: bool) -> Vec<HistoryModel> {
 pub fn meta(tier: &str) -> Meta {
     Meta {
         level: "model_checking",
-        rule: "for every pair of the three shipped providers and every common suite: hash, MAC (4 key lengths), KDF extract/expand (salt/ikm/info x 5 output lengths incl. 255*Nh+1), AEAD seal (3 AAD forms) and kem_derive over 17 input lengths {0,1,15,16,17,...,1024}: byte equality; AEAD cross-open and flipped tag; wrong AEAD key/nonce sizes; signatures both ways with bad / truncated signatures, wrong message, malformed public and secret keys; HPKE seal/open, PSK mode, setup_s/setup_r + 3 messages + export, both ways; malformed KEM public keys (empty, zero, ones, short, long, low-order X25519 points, off-curve / compressed EC points) through validate, seal, setup_s, setup_r: same verdict; mixed-provider groups: every assignment of the 3 providers to 4 parties on suite 1 (depth 2 quick / 3 thorough from 2 seeds, C01 ledger + pairwise decrypt) plus 3-provider groups on suites 2,3 and 2-provider groups on 5,7; X.509: chains of depth 1..3 x 10 defects x 5 validation times through the three validators: same verdict, the verdict the injected defect implies, same leaf key; states = provider pairs x suites + x509 cases".into(),
+        rule: "for every pair of the three shipped providers and every common suite: hash, MAC (4 key lengths), KDF extract/expand (salt/ikm/info x 5 output lengths incl. 255*Nh+1), AEAD seal (3 AAD forms) and kem_derive over 17 input lengths {0,1,15,16,17,...,1024}: byte equality; AEAD cross-open and flipped tag; wrong AEAD key/nonce sizes; signatures both ways with bad / truncated signatures, wrong message, malformed public and secret keys; HPKE seal/open, PSK mode, setup_s/setup_r + 3 messages + export, both ways; malformed KEM public keys (empty, zero, ones, short, long, low-order X25519 points, off-curve / compressed EC points) through validate, seal, setup_s, setup_r: same verdict; mixed-provider groups: every assignment of the 3 providers to 4 parties on suite 1 (depth 2 quick / 3 thorough from 2 seeds, C01 ledger + pairwise decrypt) plus 3-provider groups on suites 2,3 and 2-provider groups on 5,7; X.509: chains of depth 1..3 x 16 variants (valid with P-256, Ed25519, P-384 leaf, valid with the trust anchor appended; expired leaf, intermediate, root; not yet valid; wrong issuer signature; missing, reordered intermediate; non-CA issuer; unknown root; path length constraint exceeded; issuer without keyCertSign; untrusted self-signed leaf) x 5 validation times through the three validators: same verdict, the verdict the variant implies, and the returned signature key equals the public key of the first certificate; states = provider pairs x suites + x509 cases".into(),
         assumptions: vec![
             "a reordered certificate chain may be accepted or rejected (path building from a set); only agreement between the validators is demanded for it".into(),
             "cryptographic strength is not a subject; providers are compared with each other, not with test vectors".into(),
